@@ -8,6 +8,12 @@
 # "VIOLATION property=<id> replay=<path>" is printed); 2 harness error.
 set -u
 VERIF=/verif
+# Resolve a replay file given relative to the caller's directory before
+# changing into the crate.
+REPLAY_FILE=""
+if [ "${1:-}" = "replay" ] && [ -n "${2:-}" ]; then
+    REPLAY_FILE="$(readlink -f "$2")"
+fi
 cd "$VERIF/sim" || exit 2
 export CARGO_NET_OFFLINE=true
 export CARGO_TARGET_DIR="$VERIF/target"
@@ -30,7 +36,7 @@ case "${1:-}" in
         ;;
     replay)
         build
-        exec "$VERIF/target/release/slx-sim" replay "${2:?replay file}"
+        exec "$VERIF/target/release/slx-sim" replay "${REPLAY_FILE:?replay file}"
         ;;
     selftest)
         build
